@@ -71,5 +71,15 @@ func specs() map[string]*spec {
 		},
 		Assumptions: []string{"runtime/metrics /gc/heap/allocs:bytes as the allocation measure (lazy per-span flushing of tens of KiB is far below the 1 MiB constant)", "getrusage(RUSAGE_THREAD) with the workload goroutine locked to its OS thread"},
 	})
+	add(&spec{ID: "C06", Level: "exploration",
+		WLs: []wlSpec{{Name: "c06", Race: true, TimeoutS: 900}},
+		Rule: "real client vs the conformant reference server over loopback TCP, one fresh key exchange per case: each of {nonce, server_nonce, new_nonce, new_nonce_hash1, RSA ciphertext, g_a, g_b, g^ab} forced to begin with 1 (quick) or 1-2 (thorough) zero bytes (server values chosen, client values scripted through the interposed crypto/rand.Reader, derived values searched), PRNG exchanges, 8 pq shapes; oracle: CreateConnection returns nil, both sides hold the same 256-byte key and salt, exactly 3 plaintext frames, the first encrypted request is answered with its stamp, the session file equals (key, id, salt, address); observed (not intended) leading-zero values are counted; distinct = distinct (plan, nonce) and distinct observed corners",
+		Assumptions: []string{"refserver handshake written from core.telegram.org/mtproto/auth_key", "client draws are forced only if the tree draws them from crypto/rand (otherwise reported as not forced)", "race detector build; reports informational"},
+	})
+	add(&spec{ID: "C07", Level: "fault_enumeration",
+		WLs: []wlSpec{{Name: "c07", Race: true, TimeoutS: 900}},
+		Rule: "one fault per otherwise conformant exchange: the 7 nonce/server_nonce comparison sites x {bit flips (4 positions quick, all 128 thorough), fresh random, the other nonce, zero}; fingerprint lists {empty, one wrong, many wrong, off by one, byte-swapped}; encrypted answer {flip in first/middle/last block, hash altered, content altered with stale hash, length not a multiple of 16, truncated, empty, 16/32 extra padding bytes}; new_nonce_hash1 {bit flips, other digests, zero, random}; alternative constructors; oracle: CreateConnection returns a non-nil error (no panic, no stall), no session file, zero encrypted frames at the server incl. a drain; distinct = distinct (site, corruption, position)",
+		Assumptions: []string{"refserver (conformant apart from the injected fault)", "stall = identical goroutine dumps with every client goroutine parked; watchdog firing without that signature is inconclusive"},
+	})
 	return m
 }
